@@ -9,6 +9,10 @@ fn main() {
         mv_engine::quiet_panics();
         std::process::exit(mv_core::c_robust::c20_child(&args));
     }
+    if args.first().map(|s| s.as_str()) == Some("c14-child") {
+        mv_engine::quiet_panics();
+        std::process::exit(mv_core::c_lerp::c14_child(&args));
+    }
     let Some(mut run) = Run::from_args(&args) else {
         eprintln!("usage: core <C01..C14|C20> [quick|thorough] | core replay <Cnn> <file>");
         std::process::exit(2);
